@@ -53,6 +53,7 @@ type Engine struct {
 	Hist     *History
 	KeepTrace bool
 	lastStep *Step
+	CheckProp string // the property this run is for
 	GangStyle map[string]string // application id -> gang scheduling style as submitted (Hard, or Soft for anything else)
 	lastChanged bool
 	barrierTimeout time.Duration
@@ -308,8 +309,22 @@ func (e *Engine) Do(o *Op) bool {
 	e.Cur = st.Post
 	e.lastChanged = worldChanged(st.Pre, st.Post)
 	e.check(st)
-	// a violating step ends the case: whatever follows would be judged on a state that is already wrong
-	return e.Inconclusive == "" && len(e.Viol) == 0
+	// a step that violates the property under check ends the case: whatever follows would be judged on a state
+	// that is already wrong. Violations of other properties do not end it (their own checks report them); the driver
+	// discards violations that come after a known finding of another property as tainted.
+	return e.Inconclusive == "" && !e.stopNow()
+}
+
+func (e *Engine) stopNow() bool {
+	if len(e.Viol) >= 40 {
+		return true
+	}
+	for _, v := range e.Viol {
+		if v.Prop == e.CheckProp || e.CheckProp == "" {
+			return true
+		}
+	}
+	return false
 }
 
 // opSig describes the step in which a violation appeared: operation kind plus the facts about its target that
